@@ -80,6 +80,37 @@ fn main() {
         }
         return;
     }
+    if id == "probe-uses" {
+        // check probe-uses <replay.json of a graph case>: decode the library's components and show what wac records
+        let v: serde_json::Value = serde_json::from_str(&std::fs::read_to_string(&rest[0]).unwrap()).unwrap();
+        let spec: vcheck::gen::wit::LibSpec = serde_json::from_value(v["case"]["lib"].clone()).unwrap();
+        let lib = vcheck::gen::wit::build_lib(&spec);
+        let comps = vcheck::gen::wit::build_library(&lib).unwrap();
+        for c in &comps {
+            println!("== {}\n{}", c.name, c.wit);
+            let mut types = wac_types::Types::default();
+            let p = wac_types::Package::from_bytes(&c.name, None, c.bytes.clone(), &mut types).unwrap();
+            let w = &types[p.ty()];
+            for (dir, m) in [("import", &w.imports), ("export", &w.exports)] {
+                for (n, k) in m {
+                    if let wac_types::ItemKind::Instance(id) = k {
+                        let i = &types[*id];
+                        println!("  {dir} {n}: id {:?}", i.id);
+                        for (un, u) in &i.uses {
+                            println!("    uses {un} from {:?} (orig {:?})", types[u.interface].id, u.name);
+                        }
+                        for (en, ek) in &i.exports {
+                            if let wac_types::ItemKind::Type(wac_types::Type::Resource(r)) = ek {
+                                let res = &types[*r];
+                                println!("    resource export {en}: name {} alias {:?}", res.name, res.alias.map(|a| (a.owner.map(|o| types[o].id.clone()), types[a.source].name.clone())));
+                            }
+                        }
+                    }
+                }
+            }
+        }
+        return;
+    }
     if id == "probe-enc" {
         // check probe-enc <text|@file>: resolve without packages, encode, print as WAT
         let text = rest.join(" ");
